@@ -9,6 +9,10 @@
 //	c.Send(msg, false) and never touch msg again; the subscriber may free it          (testnode mockP2P)
 //	c.Sub(topic); for msg := range c.Recv() { …; msg.Reply(c.NewMessage(…)) | msg.ReplyErr(…) }, possibly `go handle(msg)`
 //	module.Close(): c.Close() from another goroutine while the Recv loop keeps draining; then q.Close()
+//	mem.client.Send(msg, true) with the error ignored, then WaitTimeout(msg, …)          (mempool/base.go getCurrentNonce)
+//	a request sent with waitReply=false (low-priority channel; the reply channel stays on the message) and then waited for
+//	pooled objects travel between topics: NewMessage is repeated (rejects are given back) until it hands out an object
+//	whose previous life was a successful synchronous request on another topic — sync.Pool drops objects under -race
 //	requests to a topic nobody subscribes (disabled module; queue_test.go TestClient_WaitTimeout): only q.Close() ends them
 //
 // Oracle (from the property text, independent of the queue's implementation):
@@ -65,10 +69,13 @@ type topicCfg struct {
 }
 
 type opCfg struct {
-	Topic  int  `json:"t"` // -1: the unsubscribed topic
-	Async  bool `json:"async,omitempty"`
-	SendMs int  `json:"send_ms"` // -1: Send (blocks), 0: SendTimeout(0) non-blocking, >0: SendTimeout
-	WaitUs int  `json:"wait_us"` // 0: Wait (blocks), >0: WaitTimeout
+	Topic  int  `json:"t"`                // -1: the unsubscribed topic
+	Async  bool `json:"async,omitempty"`  // fire and forget: Send(msg,false), never waited for
+	Low    bool `json:"low,omitempty"`    // a request sent with waitReply=false (low-priority channel) and then waited for
+	Ignore bool `json:"ignore,omitempty"` // the error of Send is ignored and the request is waited for anyway
+	Reuse  bool `json:"reuse,omitempty"`  // insist on a pooled object last used for a sync request on another topic
+	SendMs int  `json:"send_ms"`          // -1: Send (blocks), 0: SendTimeout(0) non-blocking, >0: SendTimeout
+	WaitUs int  `json:"wait_us"`          // 0: Wait (blocks), >0: WaitTimeout
 	PreUs  int  `json:"pre_us,omitempty"`
 	GapUs  int  `json:"gap_us,omitempty"` // between Send and Wait
 	Free   int  `json:"free"`             // after a successful wait: 0 nothing, 1 FreeMessage(msg), 2 FreeMessage(msg, reply)
@@ -109,7 +116,7 @@ type payload struct {
 type echo struct{ Token string }
 
 type counters struct {
-	ok, timeouts, recycled, inflightAtClose, closedErr, sendSpannedClose, waitSpannedClose, postCloseRefused, fullErr, foreign, asyncSeen atomic.Int64
+	ok, timeouts, recycled, inflightAtClose, closedErr, sendSpannedClose, waitSpannedClose, postCloseRefused, fullErr, foreign, asyncSeen, crossTopic, lowWaited, waitAfterFailedSend, waitOnTravelled atomic.Int64
 }
 
 type harness struct {
@@ -118,10 +125,11 @@ type harness struct {
 	tclient []queue.Client // subscriber client per topic
 	tname   []string
 
-	mu    sync.Mutex
-	hist  []string
-	freed map[*queue.Message]bool
-	gors  []*gor
+	mu       sync.Mutex
+	hist     []string
+	freed    map[*queue.Message]bool
+	lastSync map[*queue.Message]int // topic of the object's last successful synchronous send (its previous life)
+	gors     []*gor
 
 	failOnce sync.Once
 	failed   chan struct{}
@@ -181,14 +189,43 @@ func sleepUs(us int) {
 
 // newMsg is client.NewMessage plus recycling detection by pointer identity (the pool is per queue, the queue per run).
 func (h *harness) newMsg(c queue.Client, topic string, ty int64, data interface{}) *queue.Message {
-	m := c.NewMessage(topic, ty, data)
+	m, _ := h.newMsgOn(c, -2, topic, ty, data)
+	return m
+}
+
+// newMsgOn also tells whether the object has travelled: recycled, and its previous life was a successful synchronous
+// request on a topic other than ti.
+func (h *harness) newMsgOn(c queue.Client, ti int, topic string, ty int64, data interface{}) (m *queue.Message, travelled bool) {
+	m = c.NewMessage(topic, ty, data)
 	h.mu.Lock()
 	if h.freed[m] {
 		delete(h.freed, m)
 		h.c.recycled.Add(1)
+		if prev, ok := h.lastSync[m]; ok && ti != -2 && prev != ti {
+			travelled = true
+			h.c.crossTopic.Add(1)
+		}
 	}
 	h.mu.Unlock()
-	return m
+	return m, travelled
+}
+
+// newTravelled repeats NewMessage (at most 12 times) until the pool hands out a travelled object; the rejects are held
+// back meanwhile and then returned to the pool unused.  Falls back to the last object drawn.
+func (h *harness) newTravelled(c queue.Client, ti int, topic string, ty int64, data interface{}) (*queue.Message, bool) {
+	var rejects []*queue.Message
+	defer func() {
+		if len(rejects) > 0 {
+			h.free(c, rejects...)
+		}
+	}()
+	for i := 0; ; i++ {
+		m, tr := h.newMsgOn(c, ti, topic, ty, data)
+		if tr || i == 11 {
+			return m, tr
+		}
+		rejects = append(rejects, m)
+	}
 }
 
 func (h *harness) free(c queue.Client, msgs ...*queue.Message) {
@@ -307,10 +344,13 @@ func replyToken(r *queue.Message) (string, bool) {
 // ---------------------------------------------------------------- requester side
 
 type pending struct {
-	op    opCfg
-	token string
-	msg   *queue.Message
-	quiet bool
+	op        opCfg
+	token     string
+	msg       *queue.Message
+	quiet     bool
+	counted   bool  // counted in h.inflight
+	sendErr   error // Ignore: the error Send returned and the caller did not look at
+	travelled bool
 }
 
 func (h *harness) clientOf(own int, plain queue.Client) queue.Client {
@@ -379,7 +419,14 @@ func (h *harness) send(g *gor, who string, cl queue.Client, own int, op opCfg, q
 	}
 	pre := anySet(h.returned, h.relevant(own, op.Topic)) // read before the call starts (O3)
 	i0 := h.initCount.Load()
-	msg := h.newMsg(cl, h.topicName(op.Topic), ty, &payload{Token: token, Topic: op.Topic})
+	var msg *queue.Message
+	var travelled bool
+	if op.Reuse && op.Topic >= 0 {
+		msg, travelled = h.newTravelled(cl, op.Topic, h.topicName(op.Topic), ty, &payload{Token: token, Topic: op.Topic})
+	} else {
+		msg, travelled = h.newMsgOn(cl, op.Topic, h.topicName(op.Topic), ty, &payload{Token: token, Topic: op.Topic})
+	}
+	waitReply := !op.Async && !op.Low
 	h.started.Add(1)
 	h.progress.Add(1)
 	counted := !op.Async && op.Topic >= 0 // orphan requests are not "requests in flight" for the non-triviality rule
@@ -388,13 +435,21 @@ func (h *harness) send(g *gor, who string, cl queue.Client, own int, op opCfg, q
 	}
 	var err error
 	desc := fmt.Sprintf("Send(%s->topic%d async=%v send_ms=%d)", token, op.Topic, op.Async, op.SendMs)
+	if op.Low || travelled {
+		desc = fmt.Sprintf("Send(%s->topic%d waitReply=%v send_ms=%d travelled=%v)", token, op.Topic, waitReply, op.SendMs, travelled)
+	}
 	g.call(desc, op.SendMs < 0, func() {
 		if op.SendMs < 0 {
-			err = cl.Send(msg, !op.Async)
+			err = cl.Send(msg, waitReply)
 		} else {
-			err = cl.SendTimeout(msg, !op.Async, time.Duration(op.SendMs)*time.Millisecond)
+			err = cl.SendTimeout(msg, waitReply, time.Duration(op.SendMs)*time.Millisecond)
 		}
 	})
+	if err == nil && waitReply && op.Topic >= 0 {
+		h.mu.Lock()
+		h.lastSync[msg] = op.Topic
+		h.mu.Unlock()
+	}
 	h.progress.Add(1)
 	if h.initCount.Load() > i0 {
 		h.c.sendSpannedClose.Add(1)
@@ -403,29 +458,54 @@ func (h *harness) send(g *gor, who string, cl queue.Client, own int, op opCfg, q
 		h.logf("%s %s -> %v (closedBefore=%v)", who, desc, err, pre)
 	}
 	h.checkSendErr(who, token, own, op.Topic, op.SendMs, pre, err)
-	if op.Async || err != nil { // async: msg now belongs to the subscriber; error: callers drop the message
+	if op.Async || (err != nil && !op.Ignore) { // async: msg now belongs to the subscriber; error: most callers drop the message
 		if counted {
 			h.inflight.Add(-1)
 		}
 		return nil
 	}
-	return &pending{op: op, token: token, msg: msg, quiet: quiet}
+	if err != nil && counted { // nothing is in flight; the caller just has not looked
+		h.inflight.Add(-1)
+		counted = false
+	}
+	return &pending{op: op, token: token, msg: msg, quiet: quiet, counted: counted, sendErr: err, travelled: travelled}
 }
 
 func (h *harness) wait(g *gor, who string, cl queue.Client, own int, p *pending) {
-	if p.op.Topic >= 0 {
+	if p.counted {
 		defer h.inflight.Add(-1)
 	}
 	sleepUs(p.op.GapUs)
+	waitUs := p.op.WaitUs
+	main := !h.shutdownDone.Load() // the class counters describe the traffic phase, not the post-mortem
+	if p.sendErr != nil {
+		if main {
+			h.c.waitAfterFailedSend.Add(1)
+		}
+		// The request never entered a channel.  After a closed-error every Wait must come back with an error (the
+		// property); after "channel full"/"send timeout" on a healthy topic only a bounded wait can (mempool: 2 s).
+		if !isClosedErr(p.sendErr) && waitUs <= 0 {
+			waitUs = 2000
+		}
+	}
+	if p.op.Low && main {
+		h.c.lowWaited.Add(1)
+	}
+	if main && p.travelled && (p.op.Low || p.sendErr != nil) {
+		h.c.waitOnTravelled.Add(1)
+	}
 	i0 := h.initCount.Load()
 	var reply *queue.Message
 	var err error
-	desc := fmt.Sprintf("Wait(%s wait_us=%d)", p.token, p.op.WaitUs)
-	g.call(desc, p.op.WaitUs <= 0, func() {
-		if p.op.WaitUs <= 0 {
+	desc := fmt.Sprintf("Wait(%s wait_us=%d)", p.token, waitUs)
+	if p.sendErr != nil {
+		desc = fmt.Sprintf("Wait(%s wait_us=%d after ignored send error %v)", p.token, waitUs, p.sendErr)
+	}
+	g.call(desc, waitUs <= 0, func() {
+		if waitUs <= 0 {
 			reply, err = cl.Wait(p.msg)
 		} else {
-			reply, err = cl.WaitTimeout(p.msg, time.Duration(p.op.WaitUs)*time.Microsecond)
+			reply, err = cl.WaitTimeout(p.msg, time.Duration(waitUs)*time.Microsecond)
 		}
 	})
 	h.progress.Add(1)
@@ -436,7 +516,7 @@ func (h *harness) wait(g *gor, who string, cl queue.Client, own int, p *pending)
 	if err != nil {
 		h.logf("%s %s -> err %v", who, desc, err)
 		switch {
-		case err == queue.ErrQueueTimeout && p.op.WaitUs > 0:
+		case err == queue.ErrQueueTimeout && waitUs > 0:
 			h.c.timeouts.Add(1) // timed-out requests are not recycled (queueprotocol.go: "只对正确流程msg回收")
 		case isClosedErr(err):
 			h.c.closedErr.Add(1)
@@ -444,7 +524,7 @@ func (h *harness) wait(g *gor, who string, cl queue.Client, own int, p *pending)
 				h.fail("O4: %s: wait for %s (topic %d) failed with %v but no relevant Close was ever initiated", who, p.token, p.op.Topic, err)
 			}
 		default:
-			h.fail("O4: %s: wait for %s (topic %d, wait_us=%d) returned unexpected error %v", who, p.token, p.op.Topic, p.op.WaitUs, err)
+			h.fail("O4: %s: wait for %s (topic %d, wait_us=%d) returned unexpected error %v", who, p.token, p.op.Topic, waitUs, err)
 		}
 		return
 	}
@@ -611,11 +691,17 @@ func (h *harness) closer(g *gor) {
 	}
 }
 
-// postMortem: everything has been closed; from every client, to every topic, each flavour of send must be refused (O3).
+// postMortem: everything has been closed; from every client, to every topic, each flavour of send must be refused (O3)
+// and a Wait on a refused request must return an error too.
 func (h *harness) postMortem(g *gor, who string, cl queue.Client, own int) {
 	for ti := -1; ti < len(h.sc.Topics); ti++ {
-		for _, op := range []opCfg{{Topic: ti, SendMs: -1}, {Topic: ti, SendMs: 0}, {Topic: ti, SendMs: 2}, {Topic: ti, Async: true, SendMs: -1}, {Topic: ti, Async: true, SendMs: 0}, {Topic: ti, Async: true, SendMs: 2}} {
-			h.send(g, who+"/post", cl, own, op, false) // a pending request here means O3 has already failed the run
+		for _, op := range []opCfg{{Topic: ti, SendMs: -1}, {Topic: ti, SendMs: 0}, {Topic: ti, SendMs: 2}, {Topic: ti, Async: true, SendMs: -1}, {Topic: ti, Async: true, SendMs: 0}, {Topic: ti, Async: true, SendMs: 2},
+			{Topic: ti, SendMs: -1, Ignore: true}, {Topic: ti, Low: true, SendMs: -1, Ignore: true}} {
+			// a pending request without send error means O3 has already failed the run; after an ignored refusal the
+			// caller's Wait (no timeout) must return an error as well
+			if p := h.send(g, who+"/post", cl, own, op, false); p != nil && p.sendErr != nil {
+				h.wait(g, who+"/post", cl, own, p)
+			}
 		}
 	}
 }
@@ -624,7 +710,7 @@ func (h *harness) postMortem(g *gor, who string, cl queue.Client, own int) {
 
 func runScenario(sc *scenario) (h *harness, viol string) {
 	nT := len(sc.Topics)
-	h = &harness{sc: sc, q: queue.New("c36"), freed: map[*queue.Message]bool{}, failed: make(chan struct{}), firstInit: make(chan struct{}),
+	h = &harness{sc: sc, q: queue.New("c36"), freed: map[*queue.Message]bool{}, lastSync: map[*queue.Message]int{}, failed: make(chan struct{}), firstInit: make(chan struct{}),
 		initiated: make([]atomic.Bool, nT+1), returned: make([]atomic.Bool, nT+1)}
 	var consumers, workers, late []*gor
 	plains := make([]queue.Client, len(sc.Reqs))
@@ -754,15 +840,20 @@ func genScenario(t *rapid.T) *scenario {
 		}
 		nOps := rapid.IntRange(1, 16).Draw(t, "nops")
 		for o := 0; o < nOps; o++ {
-			rc.Ops = append(rc.Ops, opCfg{
+			kind := rapid.SampledFrom([]string{"async", "low", "sync", "sync", "sync", "sync"}).Draw(t, "kind")
+			op := opCfg{
 				Topic:  rapid.IntRange(0, nT-1).Draw(t, "topic"),
-				Async:  rapid.IntRange(0, 5).Draw(t, "async") == 0,
+				Async:  kind == "async",
+				Low:    kind == "low",
+				Ignore: kind != "async" && rapid.IntRange(0, 2).Draw(t, "ignore") == 0,
 				SendMs: rapid.SampledFrom(sendsMs).Draw(t, "sendMs"),
 				WaitUs: rapid.SampledFrom(waitsUs).Draw(t, "waitUs"),
 				PreUs:  rapid.SampledFrom(gapsUs).Draw(t, "pre"),
 				GapUs:  rapid.SampledFrom(gapsUs).Draw(t, "gap"),
 				Free:   rapid.SampledFrom([]int{2, 2, 1, 0}).Draw(t, "free"),
-			})
+			}
+			op.Reuse = op.Low || op.Ignore // these are the requests that do not (surely) pass the synchronous send path
+			rc.Ops = append(rc.Ops, op)
 		}
 		total += nOps
 		sc.Reqs = append(sc.Reqs, rc)
@@ -849,6 +940,12 @@ func classify(sc *scenario, h *harness) {
 	flag("run:full_or_send_timeout_seen", c.fullErr.Load())
 	flag("run:async_delivered", c.asyncSeen.Load())
 	flag("run:foreign_message_at_subscriber", c.foreign.Load())
+	flag("run:object_travelled_between_topics", c.crossTopic.Load())
+	flag("run:low_priority_request_waited", c.lowWaited.Load())
+	flag("run:wait_after_ignored_send_error", c.waitAfterFailedSend.Load())
+	flag("run:wait_on_travelled_object_without_sync_send", c.waitOnTravelled.Load())
+	lib.ClassN("travelled_objects", int(c.crossTopic.Load()))
+	lib.ClassN("waits_on_travelled_object_without_sync_send", int(c.waitOnTravelled.Load()))
 	lib.ClassN("replies_matched", int(c.ok.Load()))
 	lib.ClassN("recycled_messages", int(c.recycled.Load()))
 	lib.ClassN("sends_refused_after_close", int(c.postCloseRefused.Load()))
